@@ -20,6 +20,8 @@ import (
 )
 
 // files whose functions get yields (library code that runs on behalf of a caller task)
+var nHot int
+
 var targets = []string{
 	"age.go", "primitives.go", "x25519.go", "scrypt.go",
 	"agessh/agessh.go",
@@ -29,12 +31,20 @@ var targets = []string{
 const hookPkg = `// Package simyield exists only in scratch copies made by /verif/sim/cmd/astyield.
 package simyield
 
-// Hook is called before every statement of the instrumented library code.
-var Hook func()
+// Hook is called before every statement of the instrumented library code; hot says that the statement
+// belongs to a method of a key object (a type whose name contains Identity or Recipient), i.e. to code
+// that works on state callers may share.
+var Hook func(hot bool)
 
 func Y() {
 	if h := Hook; h != nil {
-		h()
+		h(false)
+	}
+}
+
+func H() {
+	if h := Hook; h != nil {
+		h(true)
 	}
 }
 `
@@ -64,7 +74,7 @@ func main() {
 		}
 		total += n
 	}
-	fmt.Printf("astyield: %d yield points inserted in %d files\n", total, len(targets))
+	fmt.Printf("astyield: %d yield points inserted in %d files, %d of them in methods of key objects\n", total, len(targets), nHot)
 }
 
 func copyTree(src, dst string) error {
@@ -94,8 +104,25 @@ func copyTree(src, dst string) error {
 	})
 }
 
-func yieldStmt() ast.Stmt {
-	return &ast.ExprStmt{X: &ast.CallExpr{Fun: &ast.SelectorExpr{X: ast.NewIdent("simyield"), Sel: ast.NewIdent("Y")}}}
+func yieldStmt(hot bool) ast.Stmt {
+	name := "Y"
+	if hot {
+		name = "H"
+	}
+	return &ast.ExprStmt{X: &ast.CallExpr{Fun: &ast.SelectorExpr{X: ast.NewIdent("simyield"), Sel: ast.NewIdent(name)}}}
+}
+
+// receiverIsKeyObject: a method of a recipient or identity type.
+func receiverIsKeyObject(fd *ast.FuncDecl) bool {
+	if fd.Recv == nil || len(fd.Recv.List) == 0 {
+		return false
+	}
+	t := fd.Recv.List[0].Type
+	if st, ok := t.(*ast.StarExpr); ok {
+		t = st.X
+	}
+	id, ok := t.(*ast.Ident)
+	return ok && (strings.Contains(id.Name, "Identity") || strings.Contains(id.Name, "Recipient"))
 }
 
 func instrument(path string) (int, error) {
@@ -105,17 +132,21 @@ func instrument(path string) (int, error) {
 		return 0, err
 	}
 	n := 0
+	hot := false
 	var addTo func(list []ast.Stmt) []ast.Stmt
 	addTo = func(list []ast.Stmt) []ast.Stmt {
 		var out []ast.Stmt
 		for _, s := range list {
-			out = append(out, yieldStmt())
+			out = append(out, yieldStmt(hot))
 			n++
+			if hot {
+				nHot++
+			}
 			out = append(out, s)
 		}
 		return out
 	}
-	ast.Inspect(f, func(node ast.Node) bool {
+	visit := func(node ast.Node) bool {
 		switch x := node.(type) {
 		case *ast.BlockStmt:
 			if x != nil {
@@ -128,7 +159,12 @@ func instrument(path string) (int, error) {
 			x.Body = addTo(x.Body)
 		}
 		return true
-	})
+	}
+	for _, d := range f.Decls {
+		fd, ok := d.(*ast.FuncDecl)
+		hot = ok && receiverIsKeyObject(fd)
+		ast.Inspect(d, visit)
+	}
 	// import
 	imp := &ast.ImportSpec{Path: &ast.BasicLit{Kind: token.STRING, Value: `"filippo.io/age/simyield"`}}
 	added := false
